@@ -385,7 +385,6 @@ class SNum(Sym):
     """common arithmetic; a value is either concrete (self.c: Fraction) or a term"""
     __slots__ = ('t', 'c')
     __hash__ = None
-    __array_priority__ = 1000
 
     def term(self):
         if self.t is None:
@@ -787,3 +786,45 @@ def nra_solver(assertions, timeout_ms=20000):
     for a in assertions:
         s.add(a)
     return s
+
+
+def lin_degree(t, names, memo=None):
+    """degree (0 or 1) of term t in the variables `names` (set of z3 const names) if t is syntactically affine in
+    them (never multiplied together, never in a denominator, condition or uninterpreted argument); None otherwise"""
+    if memo is None:
+        memo = {}
+    key = t.get_id()
+    if key in memo:
+        return memo[key]
+    k = t.decl().kind()
+    if z3.is_const(t):
+        r = 1 if (k == z3.Z3_OP_UNINTERPRETED and t.decl().name() in names) else 0
+    else:
+        ds = [lin_degree(c, names, memo) for c in t.children()]
+        if any(d is None for d in ds):
+            r = None
+        elif k in (z3.Z3_OP_ADD, z3.Z3_OP_SUB, z3.Z3_OP_UMINUS, z3.Z3_OP_TO_REAL):
+            r = max(ds)
+        elif k == z3.Z3_OP_MUL:
+            r = sum(ds)
+            if r > 1:
+                r = None
+        elif k == z3.Z3_OP_DIV:
+            r = ds[0] if ds[1] == 0 else None
+        elif k == z3.Z3_OP_ITE:
+            r = max(ds[1], ds[2]) if ds[0] == 0 else None
+        else:
+            r = 0 if all(d == 0 for d in ds) else None
+    memo[key] = r
+    return r
+
+
+def coefficient_terms(t, cvars):
+    """for t affine in cvars: dict var-name -> coefficient term, plus '' -> constant term"""
+    zero = [(c, z3.RealVal(0)) for c in cvars]
+    const = z3.simplify(z3.substitute(t, *zero))
+    out = {'': const}
+    for i, c in enumerate(cvars):
+        sub = [(v, z3.RealVal(1 if j == i else 0)) for j, v in enumerate(cvars)]
+        out[c.decl().name()] = z3.simplify(z3.substitute(t, *sub) - const)
+    return out
